@@ -36,7 +36,7 @@ def origins(f, op, depth=0, seen=None):
         if si == "T":
             if fields:
                 cal = f.blocks[bi]["t"][1].get("d", "?")
-                out.add(("const", "default") if cal.endswith("Default>::default") else ("other", "field of the result of %s" % cal))
+                out.add(("const", "default") if cal.endswith("Default>::default") else ("callfield", bi, fields[0], cal))
             else:
                 out.add(("call", bi))
             continue
@@ -82,21 +82,38 @@ def vec_root(f, local, depth=0):
 def rule(fx, ck, name="R5.array-length"):
     ck.rule(name, "every count reported next to a leaked boxed slice is a constant or the len() of a vector that is handed out", floor=4)
     nsites = 0
-    for f in fx.fns.values():
-        if not f.file.startswith("src/ffi") or f.derived:
-            continue
-        handed = {}   # vec root local -> span of into_boxed_slice
+    # leak helpers `fn leak_as_c_array(v: Vec<T>) -> (*mut T, usize)`: judged like any hand-out site (the returned count is a sink); a caller
+    # that stores component `len` of such a call next to component `ptr` of the *same* call reports the right length
+    helpers = {}      # path -> (ptr component, len component), filled when the helper's own sinks are all fine
+    ffi_fns = [f for f in fx.fns.values() if f.file.startswith("src/ffi") and not f.derived]
+
+    def hands_out(f):
+        handed = {}
         for bi, t in f.calls():
             if t[1].get("d", "").endswith("Vec::<T, A>::into_boxed_slice") and t[2] and t[2][0][0] in ("c", "m"):
                 handed[vec_root(f, t[2][0][1][0])] = F.short_span(t[6])
-        if not handed:
-            continue
         leaks = any(t[1].get("d", "") in LEAK_CALLS or t[1].get("d", "").endswith(("Box::<T, A>::into_raw", "mem::forget")) for _, t in f.calls())
-        if not leaks:
+        return handed if leaks else {}
+    order = sorted(ffi_fns, key=lambda f: 0 if ("usize" in fx.tys(f.locals[0]) and fx.tys(f.locals[0]).startswith("(")) else 1)
+    for f in order:
+        handed = hands_out(f)
+        uses_helper = any(t[1].get("d") in helpers for _, t in f.calls())
+        if not handed and not uses_helper:
             continue
         nsites += len(handed)
         # sinks
         sinks = []
+        ret_sinks = []
+        for bi, bl in enumerate(f.blocks):
+            for s in bl["s"]:
+                if s[0] == "a" and s[1][0] == 0 and not s[1][1] and s[2][0] == "agg" and s[2][1].get("k") == "tuple" and handed:
+                    comps = s[2][2]
+                    tys_ = [fx.tys(f.locals[o[1][0]]) if o[0] in ("c", "m") else ("usize" if o[0] == "k" else "?") for o in comps]
+                    pi = next((i for i, ty_ in enumerate(tys_) if ty_.startswith("*")), None)
+                    for i, (o, ty_) in enumerate(zip(comps, tys_)):
+                        if ty_ == "usize" and o[0] in ("c", "m"):
+                            sinks.append(("return.%d" % i, o, s[3], comps[pi] if pi is not None else None))
+                            ret_sinks.append((pi, i))
         for bi, bl in enumerate(f.blocks):
             for s in bl["s"]:
                 if s[0] != "a":
@@ -139,6 +156,19 @@ def rule(fx, ck, name="R5.array-length"):
             for o in org:
                 if o[0] == "const":
                     continue
+                if o[0] == "callfield":
+                    hp = helpers.get(o[3])
+                    same_call = False
+                    if hp is not None and o[2] == hp[1]:
+                        # the neighbouring pointer must be component `ptr` of the same call
+                        if ptr_op is None:
+                            same_call = True
+                        else:
+                            same_call = any(po[0] == "callfield" and po[1] == o[1] and po[2] == hp[0] for po in origins(f, ptr_op))
+                    if same_call:
+                        continue
+                    bad.append("field of the result of %s" % o[3])
+                    continue
                 if o[0] == "call":
                     t = f.blocks[o[1]]["t"]
                     cal = t[1].get("d", "?")
@@ -151,12 +181,18 @@ def rule(fx, ck, name="R5.array-length"):
                 else:
                     bad.append(o[1])
             ok = not bad and bool(org)
+            if what.startswith("return.") and not ok:
+                ret_sinks = []
             ck.instance(name, "%s: %s" % (f.parent, what), F.short_span(sp), ok=ok)
             if not ok:
                 ck.finding(name, "%s/%s/%s" % (name, f.parent, what), F.short_span(sp),
                            "`%s` reports the length %s from %s, not from the len() of the vector whose allocation it hands to the host (%s): "
                            "for some inputs the count disagrees with the array and the host reads or frees past it"
-                           % (f.parent, what, "; ".join(sorted(set(bad))) or "an untraceable value", ", ".join(sorted(handed.values()))))
+                           % (f.parent, what, "; ".join(sorted(set(bad))) or "an untraceable value", ", ".join(sorted(handed.values())) or "through a leak helper"))
+        if ret_sinks and handed:
+            pis = {x for x in ret_sinks}
+            if len(pis) == 1 and list(pis)[0][0] is not None:
+                helpers[f.path] = list(pis)[0]
     # the `..Default::default()` tail: the Default impl of an ffi struct sets every count to a constant
     for f in fx.fns.values():
         if f.impl_trait and f.impl_trait.endswith("Default") and f.path.endswith("::default") and f.file.startswith("src/ffi") and not f.derived:
